@@ -133,6 +133,13 @@ def c04_2(ctx, ss):
     # order: db attempt, then id negation in its handler, then the marker in the inner handler
     if "db" in seen and "id" in seen:
         c_id = [c for c in seen["id"][1] if c[0] == "exc"]
+        if not c_id:
+            # sequential form: `try: return db … except: pass` followed by the id lookup — the id route is then reachable only
+            # through an exception edge of the database attempt
+            cfg = flow.cfg
+            n_id, n_db = cfg.node_of(seen["id"][0]), cfg.node_of(seen["db"][0])
+            if not cfg.reachable(cfg.entry, n_id, skip_labels=("exc",)) and cfg.reachable(cfg.entry, n_id) and not cfg.reachable(n_id, n_db):
+                c_id = [("exc", None, True)]
         (ctx.holds if c_id else ctx.violation)("C04.2", ckey(ff, None, "order"), where(ff, seen["id"][0]),
                                                 "id negation is the fallback of the database inversion" if c_id else "id negation is not the fallback of the database inversion")
 
